@@ -308,3 +308,46 @@ pub fn entropy_stream(seed: u64, label: &str, n: usize) -> Vec<[u8; 32]> {
 }
 
 pub const CLOCK0: u64 = 1_700_000_000_000;
+
+// ---- structurally special messages (built from the signer's compressed public key) ---------------------
+pub const SPECIAL_MESSAGES: [&str; 4] = ["msg = pk bytes", "msg = pk bytes || 'm'", "msg = pk bytes || pk bytes", "msg = pk bytes minus last byte"];
+
+pub fn special_message(pk: &[u8], i: usize) -> Vec<u8> {
+    let mut v = pk.to_vec();
+    match i {
+        0 => {}
+        1 => v.push(b'm'),
+        2 => v.extend_from_slice(pk),
+        _ => {
+            v.pop();
+        }
+    }
+    v
+}
+
+/// carry a secret key through the curve tagged wrapper `SecretKeyEnum`
+pub fn transport_sk_enum<C: Suite>(sk: &SecretKey<C>, c: Codec) -> Result<SecretKey<C>, String> {
+    let be = sk.to_be_bytes();
+    let g1 = C::G == "G1";
+    let e = if g1 {
+        SecretKeyEnum::G1(sk_from_be::<Bls12381G1Impl>(&be).ok_or("import")?)
+    } else {
+        SecretKeyEnum::G2(sk_from_be::<Bls12381G2Impl>(&be).ok_or("import")?)
+    };
+    let back: SecretKeyEnum = match c {
+        Codec::Bytes => SecretKeyEnum::try_from(Vec::<u8>::from(&e).as_slice()).map_err(|x| x.to_string())?,
+        Codec::Bare => via_bare(&e)?,
+        Codec::Json => via_json(&e)?,
+        Codec::Be => Option::from(SecretKeyEnum::from_be_bytes(&e.to_be_bytes())).ok_or("SecretKeyEnum::from_be_bytes None".to_string())?,
+        Codec::Le => Option::from(SecretKeyEnum::from_le_bytes(&e.to_le_bytes())).ok_or("SecretKeyEnum::from_le_bytes None".to_string())?,
+        _ => return Err("codec not offered".into()),
+    };
+    let (variant_ok, bytes) = match &back {
+        SecretKeyEnum::G1(k) => (g1, k.to_be_bytes()),
+        SecretKeyEnum::G2(k) => (!g1, k.to_be_bytes()),
+    };
+    if !variant_ok {
+        return Err("SecretKeyEnum came back as the other curve variant".into());
+    }
+    sk_from_be::<C>(&bytes).ok_or("import".to_string())
+}
